@@ -395,6 +395,13 @@ def gen_C15(ctx):
             for pre, post in (("pkg:", ""), ("pkg:/", ""), ("pkg://", ""), ("PKG:", ""), ("", "/"), ("pkg:", "/"), ("", "@1"), ("", ":"), ("type:", ""), ("purl:", ""),
                               ("", "/name"), ("pkg:", "/name@1.0"), ("", "?"), ("", "#"), ("/", ""), ("", "\n"), ("\ufeff", ""), ("", "\0"), ("\"", "\""), ("", ".")):
                 out.append(case("ptype " + hx(pre + nm + post), "ptype-affix"))
+    # the words of the library's current source, alone and around every known name
+    import srcdict
+    for t in srcdict.source_tokens():
+        out.append(case("ptype " + hx(t), "ptype-affix"))
+        for name in KNOWN_TYPES:
+            for x_ in (t + name, name + t, name.upper() + t, t + name + t):
+                out.append(case("ptype " + hx(x_), "ptype-affix"))
     # one non-ASCII scalar standing where k letters of a name would be (k = its length in UTF-8): the byte length of the
     # name is preserved — what a byte-wise key, hash or packing of the name may confuse with it.  Every two-byte scalar
     # in every position (thorough: also every three-byte scalar); and every corner scalar alone and in every position
